@@ -1,4 +1,4 @@
-use std::collections::HashMap;
+use std::collections::{BTreeMap, HashMap};
 
 use regex::Regex;
 use serde::{Deserialize, Serialize};
@@ -6,6 +6,7 @@ use serde::{Deserialize, Serialize};
 use crate::{
     nodes::{DecimalNumber, Expression, StringExpression, TableEntry, TableExpression},
     process::to_expression,
+    utils::Json5Value,
 };
 
 use super::{
@@ -27,10 +28,11 @@ pub enum RulePropertyValue {
     StringList(Vec<String>),
     RequireMode(RequireMode),
     None,
+    // values are kept as JSON5 values: JSON values would turn `Infinity` and `NaN` into `null`
     #[doc(hidden)]
-    Map(serde_json::Map<String, serde_json::Value>),
+    Map(BTreeMap<String, Json5Value>),
     #[doc(hidden)]
-    Array(Vec<serde_json::Value>),
+    Array(Vec<Json5Value>),
 }
 
 impl RulePropertyValue {
